@@ -229,6 +229,37 @@ def check_unconvertible(case):
     return out
 
 
+# the value of the "jsonrpc" member is irrelevant to the form: its presence selects the server's own form
+
+MARKER_VALUES = ["2.0", "1.0", "1.1", "2", "3.0", "two", "", 2, 2.0, 1, 1.0, 0, True, False, None, [2], {"v": 2}]
+
+
+def marker_cases(tier):
+    for version in (2.0, 1.0):
+        for jc in (True, False):
+            for jv in MARKER_VALUES:
+                odd = [obj(jv, 7, "pair", [1, 2]), obj(jv, 7, "boom", []), obj(jv, 7, "nosuch", []), obj(jv, ABSENT, "f", [1]), obj(jv, 7, "pair", [1]), obj(jv, 7, "retfault", [])]
+                for o in odd:
+                    yield ((version, jc), B.dumps(o))
+                    yield ((version, jc), B.dumps([obj("2.0", 8, "pair", [1, 2]), o, obj(ABSENT, 9, "pair", [3, 4])]))
+                    yield ((version, jc), B.dumps([o, obj(ABSENT, 9, "pair", [3, 4])]))
+
+
+def check_marker(case):
+    key, body = case
+    w = ref.World(version=key[0], use_jsonclass=key[1])
+    out = Out(cls="marker")
+    viols, label, dom = ref.evaluate_body(w, body)
+    for prop, sig, detail in viols:
+        if prop in ("C13", "HARNESS"):
+            out.bad(sig if prop == "C13" else "C13/" + sig, detail)
+    return out
+
+
+def leg_marker(part, tier, shard, nshards):
+    drive(part, "marker-values", marker_cases(tier), shard, nshards, check_marker)
+
+
 def leg_unconvertible(part, tier, shard, nshards):
     drive(part, "unconvertible-results", unconvertible_cases(tier), shard, nshards, check_unconvertible)
 
@@ -422,7 +453,7 @@ def leg_concurrent(part, tier, shard, nshards):
     part.merge(total)
 
 
-LEGS = {"unconvertible-results": leg_unconvertible, "long-history": leg_long, "history": leg_history, "config-copy": leg_copy, "concurrent": leg_concurrent}
+LEGS = {"unconvertible-results": leg_unconvertible, "marker-values": leg_marker, "long-history": leg_long, "history": leg_history, "config-copy": leg_copy, "concurrent": leg_concurrent}
 
 META = {
     "engine": "E2-fake-network-history-search+E1-schedule-explorer+E3-small-scope-enumeration",
@@ -432,7 +463,7 @@ META = {
     "rule": "history: every sequence of <=3 (thorough <=4) requests over a 17-request menu (1.0/2.0 calls, notifications, failing, unknown, bad arity, mixed "
     "and 1.0 batches, invalid objects of both versions, unparsable text, methods returning a Fault object, requests carrying translated beans) x 6 server configurations (2.0, 1.0, translation off, inline notification pool, "
     "shared DEFAULT config); unconvertible-results: methods returning a cyclic, a 100000-deep, a tuple-keyed result, a bean whose serialisation method raises, or a Fault built with the default / the server's own Config / shared between calls, alone and in a "
-    "batch, 1.0 and 2.0 form, server 1.0/2.0, translation on/off; long-history: each menu request after 130 repetitions of each menu request, after 1100 (thorough up to 70000) repetitions of 4 of them, "
+    "batch, 1.0 and 2.0 form, server 1.0/2.0, translation on/off; marker-values: 17 values of the jsonrpc member (strings spelling other versions, numbers, booleans, null, containers) x 6 request kinds, alone and at two batch positions, server 1.0/2.0, translation on/off (presence of the member, not its value, selects the form); long-history: each menu request after 130 repetitions of each menu request, after 1100 (thorough up to 70000) repetitions of 4 of them, "
     "after 40 cycles through the menu and after large batches / large requests, on 3 configurations (the N-th reply equals a fresh dispatcher's); config-copy: every sequence of <=2 mutations from a 16-mutation menu on the copy and on the original from 5 start states (default, populated tables, 1.0 with options off, every option falsy, every option customised); "
     "concurrent: 8 request pairs (thorough + 2 triples) x 3 configurations, every schedule up to the completed preemption level at line granularity of "
     "SimpleJSONRPCServer.py, jsonrpc.py, config.py; non-trivial = history of length >= 2 / mutation applied / execution with a choice point",
@@ -456,4 +487,6 @@ def replay(case):
         return check_unconvertible(c).viols
     if case["leg"] == "long-history":
         return check_long(c).viols
+    if case["leg"] == "marker-values":
+        return check_marker(c).viols
     return check_copy(c).viols
